@@ -285,7 +285,12 @@ func (p *Proxy) handleHTTP(r responder.Responder, proxyReq *http.Request) error 
 	metrics.Global.Requests.HTTPProxyRequests.Increment()
 
 	clientHd := headers.ParseHeaderDirective(proxyReq.Header)
-	clientHd.StripRegularConditionals(proxyReq.Header)
+	if proxyReq.Method == http.MethodGet || proxyReq.Method == http.MethodHead {
+		// We answer these for the origin and revalidate with our own validators. For a write, If-Match,
+		// If-Unmodified-Since and If-None-Match are the client's guard against lost updates: without
+		// them the origin applies the write unconditionally.
+		clientHd.StripRegularConditionals(proxyReq.Header)
+	}
 
 	key := cache.MakeFromRequest(proxyReq)
 
